@@ -20,13 +20,28 @@ RULE = ("square non-negative integer matrices, zero diagonal, a positive "
         "lb <= len <= ub. non-trivial = distinct (matrix, tour) with n >= 3 "
         "and a non-constant matrix")
 LEVEL_ASSUMPTIONS = ["oracle: sum of original Python ints along the cycle"]
-REQUIRED = {"tour_evaluations": 3000, "asymmetric_instances": 100,
+REQUIRED = {"suite_runs": 1, "contract_tour_length_evaluated": 20, "tour_evaluations": 3000, "asymmetric_instances": 100,
             "corner_asymmetric": 20, "dtype_boundary_instances": 50,
             "bound_attained_lower": 20, "bound_attained_upper": 20,
             "instances_all_perms": 20, "multiplier_instances": 30}
 
 
+# the repository's own tests as a further workload, observed by the
+# process-wide contracts of vlib/monitors (see vlib/suite.py)
+SUITE_TESTS = ['tests/tsp/test_tour_length.py']
+SUITE_DOMAINS = ['tsp']
+
+
 def plan(tier: str, seed: int):
+    rounds = 1 if tier == "quick" else 6
+    return _plan(tier, seed) + [
+        {"name": f"suite{i}", "engine": "jit", "timeout": 3000,
+         "args": {"mode": "suite", "tests": SUITE_TESTS,
+                  "domains": SUITE_DOMAINS, "rounds": rounds}}
+        for i in range(1 if tier == "quick" else 4)]
+
+
+def _plan(tier: str, seed: int):
     if tier == "quick":
         return [{"name": f"s{i}", "engine": "jit", "args": {"n": 260},
                  "timeout": 900} for i in range(4)]
